@@ -119,8 +119,8 @@ func propC05(c *Check) {
 	}
 	sort.Strings(relation)
 	c.Extra["status_relation"] = relation
-	c.Floor("R1", "status writes", nWrites, 5)
-	c.Floor("R1", "Withdrawals.Set sites", nSets, 6)
+	c.Floor("R1", "status writes", nWrites, 3)
+	c.Floor("R1", "Withdrawals.Set sites", nSets, 3)
 
 	// R5 writers + proposer binding
 	c.checkWriters("R5", "x/bitcoin/keeper", "Withdrawals", map[string]string{
@@ -234,7 +234,10 @@ func propC05(c *Check) {
 		} else {
 			c.RequireFact(h, "R3", "strictly-higher-fee", patLT("Processing.Get($2.Pid)#0.Fee", "$2.NewTxFee"), nil, "")
 			// new txid: the equality branch can only fail
-			dup := lit("bytes.Equal(Processing.Get($2.Pid)#0.Txid[" + i + "], crypto.DoubleSHA256Sum(" + txField + "))")
+			// loop form, or the library search any(recorded, equal(·, new txid))
+			dup := lit("bytes.Equal(Processing.Get($2.Pid)#0.Txid["+i+"], crypto.DoubleSHA256Sum("+txField+"))") + "|" +
+				lit("any(Processing.Get($2.Pid)#0.Txid, bytes.Equal(·, crypto.DoubleSHA256Sum("+txField+")))") + "|" +
+				lit("any(Processing.Get($2.Pid)#0.Txid, bytes.Equal(crypto.DoubleSHA256Sum("+txField+"), ·))")
 			edges := p.MatchEdges(h, regexp.MustCompile(dup))
 			if len(edges) == 0 {
 				c.Violated("R3", "new-txid @ "+fnKey, p.Pos(h.Pos()), "no comparison of the new txid with the recorded ones reason=not-established")
@@ -262,12 +265,22 @@ func propC05(c *Check) {
 	// R4 finalize
 	i := "φ{(1 + @)|0}"
 	idx := "φ{-1|" + i + "}"
+	// the match index as a library search: index(recorded txids, equal(·, req.Txid)) is by definition the
+	// first position whose txid equals the request's (or -1)
+	idxIsSearch := false
+	for _, q := range []string{"index(Processing.Get($2.Pid)#0.Txid, bytes.Equal(·, $2.Txid))", "index(Processing.Get($2.Pid)#0.Txid, bytes.Equal($2.Txid, ·))"} {
+		for _, ef := range p.EdgeFacts(fin) {
+			if strings.Contains(ef.Fact, q) {
+				idx, idxIsSearch = q, true
+			}
+		}
+	}
 	c.RequireFact(fin, "R4", "Validate", lit("(MsgFinalizeWithdrawal.Validate($2) == nil)"), nil, "")
 	c.RequireFact(fin, "R4", "processing-entry", lit("(Processing.Get($2.Pid)#1 == nil)"), nil, "")
 	c.RequireFact(fin, "R4", "txid-found", lit(NE("-1", idx))+"|"+lit("(0 <= "+idx+")")+"|"+lit("(-1 < "+idx+")"), nil, "")
 	// the match index is set only under bytes.Equal(recorded txid, req.Txid) (in the handler or in a private search helper)
 	matched := false
-	eqFact := lit("bytes.Equal(Processing.Get($2.Pid)#0.Txid["+i+"], $2.Txid)")
+	eqFact := lit("bytes.Equal(Processing.Get($2.Pid)#0.Txid[" + i + "], $2.Txid)")
 	for _, x := range p.helperContexts(fin) {
 		if x.call != nil && p.CallStr(x.call) == idx {
 			// a search helper returning the index: the index is returned only under the equality
@@ -291,6 +304,10 @@ func propC05(c *Check) {
 				}
 			}
 		}
+	}
+	if idxIsSearch {
+		matched = true
+		c.Held("R4", "match-index-under-txid-equality @ "+FuncKey(fin), p.Pos(fin.Pos()), "match index = "+idx+" (library search: first recorded txid equal to the request's)")
 	}
 	if !matched {
 		c.Violated("R4", "match-index @ "+FuncKey(fin), p.Pos(fin.Pos()), "the index of the matched txid is not established reason=not-established")
